@@ -60,6 +60,7 @@ def gen_case(rng, idx, tier):
             "tpl_wd": rng.choice(["none", "none", "explicit"]),
             "items": rng.choice([["m1", "m2"], [["t1"], ["t2"]], [{"x": "d1"}, {"x": "d2"}, {"x": "d3"}]]),
             "dirs": rng.sample(["root", "nested", "abs", "rel"], 3) + ["root"],
+            "custom": rng.random() < 0.35,  # workflow file / object with non-default names: -f flow.py:wf
             "seed": rng.randrange(1 << 30),
         }
     if k in (1, 2):
@@ -289,8 +290,13 @@ def build_project(case, base):
     if case["tpl_wd"] == "explicit":
         tplwd = ", working_dir=%r" % tplwd_dir
         tpl_wd = tplwd_dir
-    with open(os.path.join(root, "workflow.py"), "w") as f:
-        f.write(WF_TEMPLATE % {"wfkw": wfkw, "tplwd": tplwd, "items": case["items"]})
+    src = WF_TEMPLATE % {"wfkw": wfkw, "tplwd": tplwd, "items": case["items"]}
+    fname = "workflow.py"
+    if case.get("custom"):
+        src = src.replace("gwf = Workflow(", "wf = Workflow(").replace("\ngwf.", "\nwf.")
+        fname = "flow.py"
+    with open(os.path.join(root, fname), "w") as f:
+        f.write(src)
     # source files where the workflow means them
     items = [i if isinstance(i, str) else (i[0] if isinstance(i, list) else i["x"]) for i in case["items"]]
     for d, xs in ((wf_wd, ["a"]), (tpl_wd, ["b", "k1", "n1", "f1"] + items)):
@@ -327,14 +333,15 @@ def run_where(case):
             env = cli.env_for(proj.simdir, ("slurm",))
             elsewhere = os.path.join(base, "elsewhere", "x")
             os.makedirs(elsewhere, exist_ok=True)
+            fn, suffix = ("flow.py", ":wf") if case.get("custom") else ("workflow.py", "")
             if dkind == "root":
-                cwd, pre = root, []
+                cwd, pre = root, (["-f", fn + suffix] if case.get("custom") else [])
             elif dkind == "nested":
-                cwd, pre = os.path.join(root, "sub", "deep"), []
+                cwd, pre = os.path.join(root, "sub", "deep"), (["-f", fn + suffix] if case.get("custom") else [])
             elif dkind == "abs":
-                cwd, pre = elsewhere, ["-f", os.path.join(root, "workflow.py")]
+                cwd, pre = elsewhere, ["-f", os.path.join(root, fn) + suffix]
             else:
-                cwd, pre = elsewhere, ["-f", "../../proj/workflow.py"]
+                cwd, pre = elsewhere, ["-f", "../../proj/" + fn + suffix]
             before = gen.snapshot(base)
             obs = {}
             r = cli.gwf(cwd, pre + ["-b", "slurm", "info"], env, audit=False)
@@ -376,6 +383,6 @@ def run_where(case):
         for field in ("info", "status", "created"):
             if o[field] != ref[field]:
                 res.violation("where-differs", "%s differs between invoking from %s and from %s: %s vs %s" % (field, keys[0], k, str(ref[field])[:300], str(o[field])[:300]), case=case)
-    res.sig = ("where", case["wf_wd"], case["tpl_wd"], tuple(sorted(set(case["dirs"]))), str(case["items"]))
+    res.sig = ("where", case["wf_wd"], case["tpl_wd"], tuple(sorted(set(case["dirs"]))), str(case["items"]), bool(case.get("custom")))
     res.nontrivial = any(k in ("abs", "rel", "nested") for k in keys)
     return res
